@@ -61,6 +61,46 @@ CHECKS.update({
         ref="DESIGN.md section 6 C20"),
 })
 
+CHECKS.update({
+    "C01": dict(
+        technique="TLA+ model checking of the finite-volume operator with a FREE flux (formal telescoping identity, TLC) + TLC-judged "
+                  "exact identities on the real operator run with a generic table flux + TLC-judged ulps tokens for real fluxes and solves",
+        text="FVM1D.tla / FVM2D.tla model the rhs pipeline (gradients, periodic closure, reconstruction, boundary states, flux, balance) "
+             "over formal flux terms, so conservation is checked as a formal identity for every flux on every small mesh; the real "
+             "fvm1d/fvm2dcart are run with a generic dyadic table flux (exact arithmetic, TLC sums the observed residuals) and with "
+             "every real model/flux/reconstruction/boundary, and solves with every integrator are judged per run.",
+        ref="DESIGN.md section 6 C01, section 4.2"),
+    "C02": dict(
+        technique="exhaustive TLC evaluation of the transcribed fluxes on exact-point state grids (Fluxes.tla) + TLC-judged real "
+                  "numflux values against the exactly computed physical flux and the exactly decided supercritical regime",
+        text="Fluxes.tla gives physical and numerical fluxes in exact rationals on exact-point families (rational sound speeds, "
+             "square density ratios); TLC checks consistency, mirror symmetry and upwinding on all grid pairs; the real fluxes are "
+             "evaluated on the same families (TLC computes the physical flux and the regime exactly) and on random floats over six "
+             "decades (ulps tokens), plus locality, power-of-two homogeneity and 2D isotropy.",
+        ref="DESIGN.md section 6 C02, section 4.4"),
+    "C11": dict(
+        technique="TLA+ model checking of reconstructions on all lattice meshes (TLC, exact rationals) + TLC-judged face states "
+                  "observed at the numflux seam of the real operators + exact kappa-stencil columns from unit impulses",
+        text="FVM1D/FVM2D state constant preservation, linear exactness at interior faces, first-order copies and the circulant "
+             "kappa stencil as invariants; the real reconstructions' face states are captured where the model receives them and "
+             "compared exactly (dyadic regime) or within round-off, and the operator on unit impulses is compared with the stencil.",
+        ref="DESIGN.md section 6 C11"),
+    "C14": dict(
+        technique="TLA+ model checking of shift equivariance of the free-flux periodic operators in 1D and 2D (TLC, all data x all "
+                  "shifts) + TLC-judged exact shifted residuals of the real operators (table flux) + ulps tokens on real solves",
+        text="Pure index algebra: TLC enumerates all data and shifts on N<=5 (1D) and grids up to 4x2/3x3 including nx or ny = 1,2,3; "
+             "the real operators with the generic table flux give dyadic residuals that TLC compares exactly with the rolled "
+             "residual; real models, fluxes and integrators are compared on rolled initial data.",
+        ref="DESIGN.md section 6 C14"),
+    "C15": dict(
+        technique="TLA+ model checking of transposition / reflection / row-wise 1D agreement of the 2D free-flux operator (TLC) + "
+                  "TLC-judged exact relations on the real fvm2dcart with a table flux + ulps tokens with the real Euler fluxes",
+        text="FVM2D.tla is checked against FVM1D.tla row by row and against its own transposed and mirrored instances for all small "
+             "grids and BC tag assignments; the real 2D operator is bound exactly (table flux, non-square cells, nx != ny) and with "
+             "centered/hlle under per/sym/insub/insup(angle)/outsub/outsup on any side.",
+        ref="DESIGN.md section 6 C15"),
+})
+
 NOT_YET = "check not built yet in this round (work in progress; see DESIGN.md section 6 for the planned TLA+ model and binding)"
 NOT_APPLICABLE = {
     "C04": "asymptotic convergence order against irrational exact solutions over mesh sequences: no finite-state exact-arithmetic "
